@@ -867,7 +867,16 @@ func (w *World) checkDeliveries(s *Sub, via string, rms []*pubsubpb.ReceivedMess
 			w.ByAck[rm.AckId] = d
 		}
 		nom := s.backoff(d.Attempts)
-		d.Lease = Iv{lo.Add(nom - time.Millisecond), hi.Add(nom + ref.JitterBound + time.Millisecond)}
+		// the new lease counts from the hand-out, and a call that waited cannot
+		// have handed the message out before it became due: when the model's
+		// earliest due instant falls inside the call, that is the lower bound
+		// (a lease counted from the start of a long poll is too short by the wait)
+		handLo := lo
+		if reason == "" && !d.Wild && !s.Decoy && d.Lease.Lo.After(lo) && !d.Lease.Lo.After(hi) {
+			handLo = d.Lease.Lo
+			w.stat("leases_counted_from_due_instant_inside_a_waiting_call", 1)
+		}
+		d.Lease = Iv{handLo.Add(nom - time.Millisecond), hi.Add(nom + ref.JitterBound + time.Millisecond)}
 		d.LeaseWhy = "delivery"
 		d.LastDeliv = Iv{lo, hi}
 		d.SeenAt = w.opn()
